@@ -31,12 +31,15 @@ from harness.common import Ctx, Part, lean_batch, load_corpus, pmap
 THEOREMS = [
     "IrVerif.Scope.C03_roundtrip",
     "IrVerif.Scope.C03_roundtrip_reloadable",
+    "IrVerif.Scope.C03_roundtrip_model",
     "IrVerif.Scope.C03_twice",
     "IrVerif.Scope.C03_pure",
 ]
 ASSUMPTIONS = [
     "value-info content and tensor payloads are opaque tokens in the model; operator identity, non-graph "
-    "attributes, metadata, functions and device configurations are compared by the oracle only",
+    "attributes, metadata and device configurations are compared by the oracle only; functions are part of the "
+    "model (C03_roundtrip_model, scope.mser) for IR version >= 10, their attributes / opset imports / doc and "
+    "the IR < 10 experimental value-info format are oracle-only",
     "graphs nest as a tree (a Graph object shared between two attributes is outside the model)",
     "the oracle's gate (serializable_reason) also admits a nested graph that shadows a name of an enclosing "
     "graph when every reference still resolves innermost-first to the referenced value; the hypothesis of "
@@ -70,8 +73,8 @@ class IRGen:
         self.hist: dict[str, int] = {}
         self.graphs: list = []  # (graph, outer_pool)
 
-    def note(self, k):
-        self.hist[k] = self.hist.get(k, 0) + 1
+    def note(self, k, n=1):
+        self.hist[k] = self.hist.get(k, 0) + n
 
     def odd(self, scale=1.0):
         return self.rng.random() < self.p_odd * scale
@@ -115,11 +118,22 @@ class IRGen:
         n = int(np.prod(shape)) if shape else 1
         doc = rng.choice([None, None, "tdoc"])
         meta = {"tk": "tv"} if rng.random() < 0.15 else None
+        # separate stream (recorded gen_seeds unchanged): a rank-2 tensor backed by a transposed view
+        # (Fortran-contiguous, not C-contiguous)
+        rng2 = random.Random(f"tr-{self.k}-{name}")
+        transposed = len(shape) == 2 and min(shape) >= 2 and rng2.random() < 0.5
+
+        def layout(a):
+            if transposed:
+                self.note("tensor_non_c_contiguous")
+                return np.ascontiguousarray(a.reshape(shape).T).T
+            return a.reshape(shape)
+
         if kind == "np":
-            return ir.Tensor(np.array([rng.randrange(-9, 9) for _ in range(n)], dtype=np.float32).reshape(shape),
+            return ir.Tensor(layout(np.array([rng.randrange(-9, 9) for _ in range(n)], dtype=np.float32)),
                              name=name, doc_string=doc, metadata_props=meta)
         if kind == "np64":
-            return ir.Tensor(np.array([rng.randrange(-9, 9) for _ in range(n)], dtype=np.int64).reshape(shape), name=name)
+            return ir.Tensor(layout(np.array([rng.randrange(-9, 9) for _ in range(n)], dtype=np.int64)), name=name)
         if kind == "bool":
             return ir.Tensor(np.array([rng.random() < 0.5 for _ in range(n)], dtype=np.bool_).reshape(shape), name=name)
         if kind == "string":
@@ -129,7 +143,7 @@ class IRGen:
             return ir.ExternalTensor("weights.bin", rng.choice([None, 0, 64]), rng.choice([None, 4 * n]),
                                      ir.DataType.FLOAT, shape=ir.Shape(shape), name=name or "ext", base_dir="/nonexistent")
         if kind == "lazy":
-            arr = np.array([rng.randrange(-9, 9) for _ in range(n)], dtype=np.float32).reshape(shape)
+            arr = layout(np.array([rng.randrange(-9, 9) for _ in range(n)], dtype=np.float32))
             return ir.LazyTensor(lambda arr=arr: ir.Tensor(arr), dtype=ir.DataType.FLOAT, shape=ir.Shape(shape), name=name)
         if kind == "packed":
             m = rng.randrange(0, 6)
@@ -404,7 +418,43 @@ class IRGen:
         for _ in range(rng.choice([0, 1, 2, 4, 8, 16])):
             self.edit(m)
         self.shadow(m)
-        return m
+        return self.reload_and_edit_tensor_metadata(m)
+
+    def reload_and_edit_tensor_metadata(self, m):
+        """sometimes: give tensors metadata, take the model through the proto once (its tensors are then backed
+        by TensorProtos that carry the metadata) and edit tensor.metadata_props (delete / change / add) on the
+        loaded model, which becomes the model under test.  Separate stream: recorded gen_seeds unchanged."""
+        from onnx_ir import serde
+
+        rng2 = random.Random(f"tmeta-{self.k}")
+        if rng2.random() >= 0.12:
+            return m
+        try:
+            for t in sc.tensors_of_model(m):
+                if rng2.random() < 0.8:
+                    t.metadata_props.update({"ka": "1", "kb": "2", "kc": "3"})
+            m2 = serde.deserialize_model(serde.serialize_model(m))
+        except Exception:  # noqa: BLE001 - not serializable: keep the API-built model
+            self.note("reload_skipped")
+            return m
+        edited = 0
+        for t in sc.tensors_of_model(m2):
+            try:
+                keys = sorted(t.metadata_props)
+                r = rng2.random()
+                if keys and r < 0.5:
+                    del t.metadata_props[rng2.choice(keys)]
+                    edited += 1
+                elif keys and r < 0.7:
+                    t.metadata_props[rng2.choice(keys)] = "changed"
+                    edited += 1
+                elif r < 0.85:
+                    t.metadata_props["knew"] = "n"
+                    edited += 1
+            except Exception:  # noqa: BLE001
+                pass
+        self.note("reloaded_model_tensor_metadata_edits", edited)
+        return m2
 
     def shadow(self, m):
         """a nested graph re-defines a name of an enclosing graph (separate stream: recorded gen_seeds
@@ -492,6 +542,16 @@ def _metadata_merge_names(g: onnx.GraphProto) -> set:
     return res
 
 
+def _d107_trigger(model) -> bool:
+    """a tensor backed by a TensorProto that carries metadata_props, all of which were deleted in the IR"""
+    from onnx_ir import serde
+
+    for t in sc.tensors_of_model(model):
+        if isinstance(t, serde.TensorProtoTensor) and not t.metadata_props and len(t.raw.metadata_props):
+            return True
+    return False
+
+
 def run_case(part, gen_seed: int, p_odd: float, lean_reqs: list, pending: list) -> None:
     from onnx_ir import serde
 
@@ -513,6 +573,15 @@ def run_case(part, gen_seed: int, p_odd: float, lean_reqs: list, pending: list) 
         part.count(f"outside_model={e.args[0][:30]}")
     except Exception as e:  # noqa: BLE001 - e.g. a tensor that cannot produce bytes
         part.count(f"outside_model=dump:{type(e).__name__}")
+    worldM = None
+    if world0 is not None and len(model.functions) and model.ir_version >= 10:
+        # the function-aware model (IR version >= 10: value_info inside the FunctionProto)
+        try:
+            worldM = sc.ir_model_to_world(model, {})
+        except sc.OutsideModel as e:
+            part.count(f"outside_model_functions={e.args[0][:30]}")
+        except Exception as e:  # noqa: BLE001
+            part.count(f"outside_model_functions=dump:{type(e).__name__}")
     # ---- purity / determinism oracle
     snap0 = sc.snapshot_model(model)
     p1 = None
@@ -565,7 +634,9 @@ def run_case(part, gen_seed: int, p_odd: float, lean_reqs: list, pending: list) 
 
                     where = re.sub(r"\[[^\]]*\]", "", where)
                     where = re.sub(r"value '.*", "value", where)
-                    if model.ir_version < 10 and where.startswith("function") and any(
+                    if "metadata" not in where and _d107_trigger(model) and ("const_value" in mm or ".attr[" in mm):
+                        where = "tensor-metadata-all-keys-deleted"  # D107
+                    elif model.ir_version < 10 and where.startswith("function") and any(
                         "/" in ident or "::" in ident
                         for f in model.functions.values()
                         for ident in [f.domain, f.name] + [v.name or "" for v in list(f.inputs) + [o for n in f for o in n.outputs]]
@@ -581,6 +652,80 @@ def run_case(part, gen_seed: int, p_odd: float, lean_reqs: list, pending: list) 
     if world0 is not None:
         lean_reqs.append({"m": "scope.ser", "w": world0})
         pending.append((case, flags, world0, model, p1, err, m2))
+    if worldM is not None:
+        part.count("model_with_functions")
+        lean_reqs.append({"m": "scope.mser", "w": worldM})
+        pending.append(("M", case, model, p1, err, m2))
+
+
+def diff_case_model(part, out: dict, case, model, p1, err, m2) -> None:
+    """main graph AND functions against `serializeM` / `deserializeM` of the Lean model"""
+    if "err" in out and "ser_ok" not in out:
+        part.disagree("driver error (scope.mser): " + str(out["err"])[:200], case, out, None)
+        return
+    if p1 is None:
+        if out.get("ser_ok"):
+            r = sc.root_cause(err)
+            if isinstance(r, TypeError) and "NoneType" in str(r):
+                part.disagree("to_proto raises on a None name, model (with functions) serializes", case, True,
+                              f"raised {r!s:.80}")
+            else:
+                part.count("to_proto_raised_outside_model=" + type(r).__name__)
+        return
+    if not out.get("ser_ok"):
+        part.disagree("model (with functions) serialization raises (None name), to_proto returns", case, False, True)
+        return
+    if _d107_trigger(model):
+        part.count("d107_stale_tensor_metadata")
+        return
+    try:
+        real_p = sc.model_proto_to_model(p1)
+    except sc.OutsideModel as e:
+        part.count(f"proto_outside_model={e.args[0][:30]}")
+        return
+    mod_p = out["p"]
+    if real_p != mod_p:
+        what = "serialized model proto differs"
+        if real_p["p"] != mod_p["p"]:
+            what += " (main graph)"
+        else:
+            for i, (a, b) in enumerate(zip(real_p["funcs"], mod_p["funcs"])):
+                if a != b:
+                    what += f" (function {i}: {[k for k in a if a[k] != b.get(k)]})"
+                    break
+            else:
+                what += " (number of functions)"
+        part.disagree(what, case, mod_p, real_p)
+        return
+    if out.get("ser2_ok") is not True or out.get("p2") != mod_p:
+        part.disagree("model (with functions): second serialization differs from the first", case, out.get("p2"), mod_p)
+    if m2 is not None:
+        if not out.get("deser_ok"):
+            part.disagree("model: deserializeM(serializeM w) raises, from_proto returns", case, out.get("err"), "ok")
+            return
+        try:
+            real2 = sc.canon_world(sc.ir_model_to_world(m2))
+        except sc.OutsideModel:
+            return
+        mod2 = sc.canon_world(out["world2"])
+        risky = _metadata_merge_names(p1.graph)
+        for f in p1.functions:
+            with_meta = {e.name for e in f.value_info if len(e.metadata_props)}
+            risky |= with_meta
+        if risky:
+            part.count("lenient_metadata_merge")
+            for w in (real2, mod2):
+                for c in w["vals"]:
+                    if c["name"] in risky:
+                        c["info"] = [c["info"][0], c["info"][1], None]
+        if real2 != mod2:
+            what = "deserializeM(serializeM w) differs"
+            for k in ("root", "funcs", "tens", "vals"):
+                if real2.get(k) != mod2.get(k):
+                    what += f" ({k})"
+            part.disagree(what, case, mod2, real2)
+    elif out.get("deser_ok"):
+        part.count("from_proto_raised_outside_model")
 
 
 def diff_case(part, out: dict, case, flags, world0, model, p1, err, m2) -> None:
@@ -619,6 +764,11 @@ def diff_case(part, out: dict, case, flags, world0, model, p1, err, m2) -> None:
     mod_p = out["p"]
     if lenient:
         part.count("lenient_shape_only")
+    elif real_p != mod_p and _d107_trigger(model):
+        # D107: to_proto resurrects the metadata of a proto-backed tensor whose keys were all deleted; the
+        # tensor tokens of the written proto then differ from the IR's (reported by the oracle as a failing input)
+        part.count("d107_stale_tensor_metadata")
+        return
     elif real_p != mod_p:
         what = "serialized proto differs"
         for k in ("inputs", "inits", "vinfo", "outputs", "nodes"):
@@ -676,7 +826,10 @@ def _worker(args) -> Part:
     for _ in range(n):
         run_case(part, rng.randrange(2**62), rng.choice([0.0, 0.0, 0.05, 0.15, 0.4]), reqs, pending)
     for out, p in zip(lean_batch(reqs), pending):
-        diff_case(part, out, *p)
+        if p[0] == "M":
+            diff_case_model(part, out, *p[1:])
+        else:
+            diff_case(part, out, *p)
     return part
 
 
@@ -712,5 +865,8 @@ def replay(ctx: Ctx, obj: dict) -> None:
     for case in _replay_cases(obj):
         run_case(part, case["gen_seed"], case["p_odd"], reqs, pending)
     for out, p in zip(lean_batch(reqs), pending):
-        diff_case(part, out, *p)
+        if p[0] == "M":
+            diff_case_model(part, out, *p[1:])
+        else:
+            diff_case(part, out, *p)
     ctx.merge(part)
